@@ -1,7 +1,7 @@
 SPECIFICATION Spec
 CONSTANTS
   MaxBytes = 2
-  Cuts = {"origin", "transit", "stall"}
+  Cuts = {"origin", "transit"}
   ForwarderWaitsOnNode = FALSE
   AcceptLeavesDeadline = FALSE
   MaxNotices = 1
